@@ -539,6 +539,62 @@ pub fn run(stream: &str, seed: u64, n: usize, out: &str) {
             }
         }
     }
+    // aimed families, drawn from a third generator state (the random sequence below is unchanged, only cut at n):
+    //  (a) spheres centred within 1e-13 .. 1e-5 of the origin: the centre is not "zero", the translation must be kept (C02-m4);
+    //  (b) "seam" rays on untransformed FULL spheres / cylinders: the ray lies in the plane y = -+eps and meets the +x side, so the
+    //      longitude of the hit is 2 pi - 1e-17 (rounds to exactly phi_max = 2 pi) or +1e-17: not clipped by phi (C03-m4)
+    {
+        let mut y = Rng::new(seed ^ (salt << 16) ^ 0xA1ED);
+        let nextra = n / 25;
+        let mut k = 0;
+        while k < nextra && sink.len() < n {
+            k += 1;
+            let rad = rand_radius(&mut y);
+            if y.chance(0.4) {
+                let c = |y: &mut Rng| -> Float { ((10.0f64).powf(y.range(-13.0, -5.0)) * if y.chance(0.5) { 1.0 } else { -1.0 }) as Float };
+                let radius = if y.chance(0.5) { rad } else { (10.0f64).powf(y.range(-5.0, -3.0)) };
+                let s = if y.chance(0.6) { Spec { shape: 0, variant: 0, args: vec![radius as Float, c(&mut y), c(&mut y), c(&mut y)], chain: vec![] } }
+                        else { let ph = rand_phi(&mut y, true); Spec { shape: 0, variant: 1, args: vec![radius as Float, c(&mut y), c(&mut y), c(&mut y), (-0.6 * radius) as Float, (0.8 * radius) as Float, ph as Float], chain: vec![] } };
+                let b = build(&s);
+                emit_ctor(&mut sink, &s, &b);
+                let obj = match &b { Ok(o) => o.clone(), Err(_) => continue };
+                let g = geom(&obj);
+                if !(g.0 > 0.0) { continue; }
+                let t = obj.transform();
+                for _ in 0..3 {
+                    let rk = *y.pick(&[0u64, 1, 2, 3, 5]);
+                    let (o, d) = rand_local_ray(&mut y, 0, g, rk);
+                    let ray = to_world(&t, &o, &d);
+                    let op = *y.pick(&[3usize, 4, 4]);
+                    emit_hit(&mut sink, &s, &obj, op, 96, &ray, zero, zero, None);
+                }
+            } else {
+                let shape = y.below(2) as usize;
+                let s = if shape == 0 {
+                    if y.chance(0.5) { Spec { shape, variant: 0, args: vec![rad as Float, 0.0, 0.0, 0.0], chain: vec![] } }
+                    else { Spec { shape, variant: 1, args: vec![rad as Float, 0.0, 0.0, 0.0, (-0.7 * rad) as Float, (0.9 * rad) as Float, 360.0], chain: vec![] } }
+                } else {
+                    let z0 = y.range(-2.0, 1.0) * rad;
+                    Spec { shape, variant: 2, args: vec![rad as Float, z0 as Float, (z0 + rad * y.range(0.5, 3.0)) as Float, 360.0], chain: vec![] }
+                };
+                let b = build(&s);
+                emit_ctor(&mut sink, &s, &b);
+                let obj = match &b { Ok(o) => o.clone(), Err(_) => continue };
+                let g = geom(&obj);
+                if !(g.0 > 0.0) || obj.transform().is_some() { continue; }
+                let (lo, hi) = if shape == 0 { (g.1.max(-0.8 * g.0), g.2.min(0.8 * g.0)) } else { (g.1, g.2) };
+                for _ in 0..3 {
+                    let z = lo + (hi - lo) * y.range(0.25, 0.75);
+                    let eps = *y.pick(&[1e-300, 1e-100, 1e-30, 1e-17 * g.0, 4e-17 * g.0]) * if y.chance(0.75) { -1.0 } else { 1.0 };
+                    let sc = *y.pick(&[1.0, 1.0, 0.25, 8.0]);
+                    let (o, d) = if y.chance(0.6) { ([g.0 * y.range(1.5, 5.0), eps, z], [-sc, 0.0, 0.0]) } else { ([g.0 * y.range(-0.5, 0.5), eps, z], [sc, 0.0, 0.0]) };
+                    let ray = to_world(&None, &o, &d);
+                    let op = *y.pick(&[1usize, 3, 4, 4]);
+                    emit_hit(&mut sink, &s, &obj, op, 97, &ray, zero, zero, None);
+                }
+            }
+        }
+    }
     while sink.len() < n {
         let s = rand_spec(&mut r, None, stream == "C03quadric");
         let b = build(&s);
